@@ -18,6 +18,18 @@ CHECKS = {
         "float64 closed-form monomial derivatives are the reference; intervals narrower than "
         "2x the stencil are counted, not judged",
         "DESIGN.md §4 C19"),
+    "C02": (
+        "postcondition monitor on every result of the real findMatching/findHydroBoundaries "
+        "(general and template solver): fluxes recomputed from the closed-form EOS, "
+        "tolerance propagated from the object's own solver tolerances; call-site monitors "
+        "(hybr status, template fallback, branch) attribute failures to a mechanism",
+        "Runtime monitoring of ~1000 (quick) / ~30000 (thorough) matchings on random bag, "
+        "template and two-step equations of state over five decades of units, all three "
+        "branches, with corner emphasis (slow walls, c_b, both sides of vJ). Held on the "
+        "executions observed, except for the listed known finding.",
+        "closed-form p, p', p'' of the analytic EOS; traced potentials are observed only "
+        "passively in the manager workloads",
+        "DESIGN.md §4 C02, §5 F6"),
 }
 
 ALL = [f"C{i:02d}" for i in range(1, 21)]
